@@ -345,6 +345,9 @@ impl Xot {
                 .get()
                 .checked_insert_after(child.get(), self.arena_mut())?;
         } else {
+            // indextree panics when asked to prepend a node that already is
+            // the first child, so take it out of its place first
+            child.get().detach(self.arena_mut());
             parent
                 .get()
                 .checked_prepend(child.get(), self.arena_mut())?;
